@@ -242,8 +242,45 @@ func (g *Gen) indexCheck(x *ssa.IndexAddr, h *Heap, guard string) {
 }
 
 // load reads through a pointer-valued SSA value.
+// guardCheck: a field annotated `guarded_by=<lock field of the same struct>` is only read or written while that lock
+// is held by the executing goroutine (or inside an object the function allocated itself, which nobody else can see).
+func (g *Gen) guardCheck(a *ssa.FieldAddr, h *Heap, guard string, what string, pos token.Pos) {
+	st, tn, ok := structOf(a.X.Type())
+	if !ok {
+		return
+	}
+	f := st.Field(a.Field)
+	ann := g.specs.FieldAnn[tn+"."+f.Name()]
+	if ann == nil || ann["guarded_by"] == "" || g.contract.Flags["noguard"] != "" {
+		return
+	}
+	if _, ok := g.specs.Ghosts["held"]; !ok {
+		return
+	}
+	lockName := ann["guarded_by"]
+	li := -1
+	for i := 0; i < st.NumFields(); i++ {
+		if st.Field(i).Name() == lockName {
+			li = i
+		}
+	}
+	if li < 0 {
+		g.errorf("guarded_by: %s has no field %s", tn, lockName)
+		return
+	}
+	base := g.val(a.X)
+	lock := g.model.subAddr(tn, lockName, base)
+	held := Sel(h.Get("G.held", ArrSort(SInt, SBool)), lock)
+	fresh := Not(g.model.allocatedBefore(base, g.model.allocNow(g.entry)))
+	name := fmt.Sprintf("%s#guard:%s.%s@%d", funcKey(g.fn), tn, f.Name(), g.ordinal("guard:"+tn+"."+f.Name()))
+	g.vc.Assert(name, "guard", guard, Or(held, fresh), g.pos(pos), what+" of "+tn+"."+f.Name()+" only while "+lockName+" is held")
+}
+
 func (g *Gen) load(ptr ssa.Value, h *Heap, guard string) string {
 	m := g.model
+	if fa, ok := ptr.(*ssa.FieldAddr); ok {
+		g.guardCheck(fa, h, guard, "read", fa.Pos())
+	}
 	pt := ptr.Type().Underlying().(*types.Pointer).Elem()
 	switch a := ptr.(type) {
 	case *ssa.FieldAddr:
@@ -286,6 +323,7 @@ func (g *Gen) store(ptr ssa.Value, val string, vt types.Type, h *Heap, guard str
 	pt := ptr.Type().Underlying().(*types.Pointer).Elem()
 	switch a := ptr.(type) {
 	case *ssa.FieldAddr:
+		g.guardCheck(a, h, guard, "write", pos)
 		st, tn, _ := structOf(a.X.Type())
 		if g.vc.constVars[fieldVar(tn, st.Field(a.Field).Name())] && g.contract.Flags["constructor"] == "" {
 			// a const field may only be written inside an object this function allocated itself
